@@ -247,6 +247,30 @@ func C09(r *vf.Run) {
 				r.Fail("seeked-reader-consumes", fmt.Sprintf("ReadHeader consumed %d bytes, the header is 80 bytes long", pos-0x7FB0), vf.Hex(raw))
 			}
 		}
+		// so is HeaderOffset: a caller working on a HiROM image points it at $FFB0 (NewROM only knows the
+		// LoROM location); read-then-write at that offset must leave the image alone too
+		if size >= 0x10000 && (raw[5]&3) == 1 {
+			save := rom.HeaderOffset
+			rom.HeaderOffset = 0xFFB0
+			img2 := append([]byte(nil), img...)
+			if err := rom.ReadHeader(); err == nil {
+				want2 := img[0xFFB0:0x10000]
+				_, wf := expectHeader(want2)
+				if d := diffFields(wf, flattenHeader(&rom.Header)); len(d) > 0 {
+					r.Fail("header-offset-ignored-on-read", fmt.Sprintf("HeaderOffset=$FFB0: ReadHeader reports fields %v that are not those at $FFB0", d), vf.Hex(want2))
+				}
+				if err := rom.WriteHeader(); err != nil {
+					r.Fail("writeheader-error", fmt.Sprintf("HeaderOffset=$FFB0: WriteHeader: %v", err), nil)
+				}
+				if !bytes.Equal(img, img2) {
+					r.Fail("roundtrip-image-other-offset", fmt.Sprintf("HeaderOffset=$FFB0: ReadHeader+WriteHeader changed image byte at file offset $%06x", firstDiff(img, img2)), nil)
+					copy(img, img2)
+				}
+				r.Cell("header-at-ffb0-roundtrip")
+			}
+			rom.HeaderOffset = save
+			_ = rom.ReadHeader()
+		}
 		// the Header is a public field: a caller may have edited it (or parsed something else into it)
 		// without touching the image; reading the header again must bring back what the image holds
 		if len(raw)%2 == 0 && (raw[3]&3) == 0 {
